@@ -326,9 +326,9 @@ func scenario(c cfg) *mcx.Scenario {
 func main() {
 	r := ev.Start("C13", "model_checking")
 	var scs []*mcx.Scenario
-	scs = append(scs, scenario(cfg{Depth: ev.Pick(r, 2, 3), Kinds: kinds}))
+	scs = append(scs, scenario(cfg{Depth: ev.Pick(r, 3, 4), Kinds: kinds}))
 	core := []string{"do-silent-cancel", "upload-abort-cancel", "download-abort-cancel", "dup-token", "observe-cancel", "observe-silent-cancel", "incoming-blockwise-abort", "write-error", "do-ok"}
-	scs = append(scs, scenario(cfg{Depth: ev.Pick(r, 3, 4), Kinds: core}))
+	scs = append(scs, scenario(cfg{Depth: ev.Pick(r, 4, 5), Kinds: core}))
 	addMore(r, &scs)
 	sum := mcx.Explore(r, scs, mcx.Config{Wall: ev.Pick(r, 4*time.Minute, 30*time.Minute)})
 	mcx.Report(r, scs, sum)
